@@ -887,7 +887,7 @@ def model_specs(draw, **kw):
       nnodes = 0   # a signature that just returns its argument(s): no operators
     # a sub-population of "hub" graphs: most operators read the first graph
     # input, so one tensor has many consumer slots (>= 9 with repeated operands)
-    hub = bool(nnodes and cfg.get('hubs', True) and cfg['max_nodes'] >= 4 and draw(st.integers(0, 11)) == 0)
+    hub = bool(nnodes and cfg.get('hubs', True) and cfg['max_nodes'] >= 4 and draw(st.integers(0, 7)) == 0)
     if hub:
       nnodes = draw(st.integers(5, 12))
     for _ in range(nnodes):
